@@ -754,6 +754,17 @@ func ruleOnce(c *Ctx, a *tcpAnchors, rule string) {
 			// third argument: load of ProxyMetrics.ClientProxy that happens after the drain
 			arg := eng.Arg(&call.Call, 2)
 			okF := eng.IsFieldLoad(p.Resolve(arg), "service/metrics.ProxyMetrics", "ClientProxy")
+			if u, isU := p.Resolve(arg).(*ssa.UnOp); isU && !okF && u.Op == token.MUL {
+				// a load through a pointer to that counter handed in by the caller (&proxyMetrics.ClientProxy)
+				okF, _ = p.AllFrom(u.X, deepF, func(x ssa.Value) bool {
+					fa, isFA := x.(*ssa.FieldAddr)
+					if !isFA {
+						return false
+					}
+					t, fl, _, ok := eng.FieldOf(fa)
+					return ok && t == "service/metrics.ProxyMetrics" && fl == "ClientProxy"
+				})
+			}
 			after := false
 			if u, ok := p.Resolve(arg).(*ssa.UnOp); ok {
 				anyDrain := liftMust(c, func(x ssa.Instruction) bool { _, isD := isDrainCall(x); return isD }, nil)
@@ -937,7 +948,16 @@ func ruleStatus(c *Ctx, a *tcpAnchors) {
 	// "OK" only on the nil edge: every place in the region where the constant "OK" is chosen for the status (a phi operand or a
 	// returned constant of a status helper) lies behind the nil edge of a test on the handler's error
 	n := 0
+	statusFns := append([]*ssa.Function{}, oreg.Fns...)
 	for _, f := range oreg.Fns {
+		// status helpers outside the package (a StatusOrOK() method of the error type)
+		for _, cl := range eng.Calls(f) {
+			if h := cl.Common().StaticCallee(); h != nil && p.InRepo(h) && len(h.Blocks) > 0 && !oreg.In[h] && h.Signature.Results().Len() == 1 && h.Signature.Results().At(0).Type().String() == "string" {
+				statusFns = append(statusFns, h)
+			}
+		}
+	}
+	for _, f := range statusFns {
 		nilE, _ := p.NilEdges(f, fromHandlerErr)
 		for _, b := range f.Blocks {
 			for _, ins := range b.Instrs {
